@@ -26,7 +26,7 @@ fn getters(e: &Engine) -> String {
     let c = &e.condition;
     let n = e.voices.global_metadata().num_streams;
     format!(
-        "{} {} {:?} {:?} {:?} {:?} {} {:?} {:?} {:?} {:?} {:?}",
+        "{} {} {:?} {:?} {:?} {:?} {} {:?} {:?} {:?} {:?} {:?} {:?}",
         c.get_sampling_frequency(),
         c.get_fperiod(),
         c.get_volume().to_bits(),
@@ -39,6 +39,7 @@ fn getters(e: &Engine) -> String {
         c.get_additional_half_tone().to_bits(),
         c.get_interporation_weight().get_duration().to_vec(),
         (0..n).map(|i| c.get_interporation_weight().get_parameter(i).to_vec()).collect::<Vec<_>>(),
+        (0..n).map(|i| c.get_interporation_weight().get_gv(i).to_vec()).collect::<Vec<_>>(),
     )
 }
 
@@ -147,7 +148,7 @@ fn pick_voice(env: &Env, rng: &mut Rng, bundled_p: f64) -> Result<Voice, String>
     let mut o = VoiceOpts::random(rng);
     // half of the generated voices ask regex-fallback questions whose answer depends on the label
     o.varying_regex_root = rng.chance(0.5);
-    let nv = if rng.chance(0.3) { rng.range(2, 3) } else { 1 };
+    let nv = if rng.chance(0.45) { *rng.pick(&[2usize, 3, 3, 4]) } else { 1 };
     let mut paths = Vec::new();
     for _ in 0..nv {
         let spec = voicegen::generate(&o, &env.pool, rng);
@@ -330,7 +331,13 @@ fn setter_history(ctx: &mut Ctx, env: &Env, rng: &mut Rng) {
         fin.gv_weight[i] = Some(fin.gv_weight[i].unwrap_or(1.0));
         fin.msd_threshold[i] = Some(fin.msd_threshold[i].unwrap_or(0.5));
     }
-    let (Ok(mut a), Ok(mut b)) = (v.load(), v.load()) else {
+    // several voices: in half of the cases engine a keeps the weights it was *loaded* with and
+    // engine b is moved away from them and back (a weight vector that was set must behave
+    // like the same vector that was never touched)
+    let nv = v.paths.len();
+    let untouched_weights = nv > 1 && rng.chance(0.6);
+    let load = |v: &Voice| if untouched_weights { Engine::load(&v.paths).map_err(|e| format!("{}", e)) } else { v.load() };
+    let (Ok(mut a), Ok(mut b)) = (load(&v), load(&v)) else {
         ctx.violation("voice-does-not-load", J::from(v.descr.clone()));
         return;
     };
@@ -351,6 +358,13 @@ fn setter_history(ctx: &mut Ctx, env: &Env, rng: &mut Rng) {
         let _ = iw.set_duration(&[0.5, 0.25]); // bad sum: rejected whatever the number of voices
         let _ = iw.set_parameter(0, &[2.0]); // bad sum: rejected
         let _ = iw.set_gv(0, &[f64::NAN]);
+        if nv > 1 && rng.chance(0.7) {
+            // valid updates as well: they are overwritten by the final values below
+            let _ = iw.set_duration(&crate::env::dyadic_weights(rng, nv, true));
+            let _ = iw.set_parameter(rng.below(n), &crate::env::dyadic_weights(rng, nv, true));
+            let _ = iw.set_gv(rng.below(n), &crate::env::dyadic_weights(rng, nv, true));
+            log.push("valid weight updates".into());
+        }
         log.push(format!("junk {}", junk.to_json()));
         // the engine is *used* between setter calls: anything a call remembers (a cached
         // vocoder, a memoised trajectory) must not survive into later settings
@@ -394,6 +408,22 @@ fn setter_history(ctx: &mut Ctx, env: &Env, rng: &mut Rng) {
             k if k < 9 + n => c.set_gv_weight(k - 9, fin.gv_weight[k - 9].unwrap()),
             k => c.set_msd_threshold(k - 9 - n, fin.msd_threshold[k - 9 - n].unwrap()),
         }
+    }
+    if nv > 1 {
+        // the weights engine a has (loaded or set) are set on b, one vector at a time
+        let wa = a.condition.get_interporation_weight().clone();
+        let iw = b.condition.get_interporation_weight_mut();
+        let mut ok = iw.set_duration(&wa.get_duration().to_vec()).is_ok();
+        for i in 0..n {
+            ok &= iw.set_parameter(i, &wa.get_parameter(i).to_vec()).is_ok();
+            ok &= iw.set_gv(i, &wa.get_gv(i).to_vec()).is_ok();
+        }
+        if !ok {
+            ctx.violation("weights-in-force-rejected-by-their-own-setter", J::from(v.descr.clone()));
+            return;
+        }
+        log.push(if untouched_weights { "weights set back to the loaded ones".into() } else { "weights set to a's".into() });
+        ctx.count(if untouched_weights { "histories_against_untouched_weights" } else { "histories_against_set_weights" }, 1.0);
     }
     let d = |extra: J| J::obj().set("voice", v.descr.clone()).set("final", fin.to_json()).set("history_of_b", J::from(log.clone())).set("observed", extra);
     if getters(&a) != getters(&b) {
@@ -692,7 +722,7 @@ pub fn run(ctx: &mut Ctx) {
     ctx.run_cases("interleave", n, false, |ctx, rng, _| {
         interleave(ctx, &env, rng);
     });
-    let n = ctx.n(64, 2000);
+    let n = ctx.n(96, 3000);
     ctx.run_cases("setter-history", n, false, |ctx, rng, _| {
         setter_history(ctx, &env, rng);
     });
